@@ -1355,34 +1355,535 @@ theorem willPart_roundtrip (c : Connect) (rest : Bytes)
         unpackWillPart c0 (wp ++ rest) =
           .ok ({ c0 with wprops := c.wprops, willTopic := c.willTopic, willMsg := c.willMsg }, rest) := by
   unfold WFOptStr at hwt hwm
-  cases hwf : c.willFlag with
-  | false =>
-    refine ⟨[], by simp [packWillPart, hwf], ?_⟩
-    intro c0 h1 _ h3 _
-    obtain ⟨e1, e2, e3⟩ := h3 hwf
-    simp only [unpackWillPart, h1, hwf, Bool.false_eq_true, if_false, List.nil_append]
-    rw [← e1, ← e2, ← e3]
-  | true =>
-    rw [hwf] at hwt hwm
-    simp only [if_true] at hwt hwm
+  by_cases hwf : c.willFlag = true
+  · rw [if_pos hwf] at hwt hwm
     obtain ⟨wt, hwt1, hwtl, hwtu⟩ := hwt
     obtain ⟨wm, hwm1, hwml, _⟩ := hwm
+    have hwtu' : validUTF8 wt = true := hwtu rfl
     refine ⟨(if c.version = v5 then packWillProps c.wprops else []) ++ writeBin wt ++ writeBin wm, ?_, ?_⟩
     · simp [packWillPart, hwf, hwt1, hwm1, encodeUTF8String_eq hwtl, encodeUTF8String_eq hwml]
     · intro c0 h1 h2 _ h4
-      simp only [unpackWillPart, h1, hwf, if_true, h2]
+      rw [hwf] at h1
+      simp only [unpackWillPart, unpackWillPropsStep, h1, if_true, h2]
       by_cases h5 : c.version = v5
-      · rw [if_pos h5] at hwp
-        rw [hwf] at hwp
-        simp only [if_true] at hwp
+      · rw [if_pos h5, if_pos hwf] at hwp
         obtain ⟨wl, hwl, hwfl⟩ := hwp
         have hup := unpackProps_packProps none wl hwfl (writeBin wt ++ (writeBin wm ++ rest))
         rw [← packWillProps_eq wl hwfl.2.2.1] at hup
-        simp only [h5, if_true, hwl, List.append_assoc, hup, readStr_writeBin wt hwtl (hwtu rfl),
+        simp only [h5, if_true, hwl, List.append_assoc, hup, readStr_writeBin wt hwtl hwtu',
           readBin_writeBin wm hwml]
         rw [hwt1, hwm1]
-      · simp only [h5, if_false, List.nil_append, List.append_assoc, readStr_writeBin wt hwtl (hwtu rfl),
+      · simp only [h5, if_false, List.nil_append, List.append_assoc, readStr_writeBin wt hwtl hwtu',
           readBin_writeBin wm hwml]
         rw [hwt1, hwm1, h4 h5]
+  · have hwf' : c.willFlag = false := by simpa using hwf
+    refine ⟨[], by simp [packWillPart, hwf'], ?_⟩
+    intro c0 h1 _ h3 _
+    obtain ⟨e1, e2, e3⟩ := h3 hwf'
+    rw [hwf'] at h1
+    simp only [unpackWillPart, h1, Bool.false_eq_true, if_false, List.nil_append]
+    rw [← e1, ← e2, ← e3]
+    cases c0
+    simp only at h1
+    subst h1
+    rfl
+
+theorem userPart_roundtrip (c : Connect) (rest : Bytes) (hu : WFOptStr c.usernameFlag c.username true) :
+    ∃ up, packUserPart c = .ok up ∧
+      ∀ c0 : Connect, c0.usernameFlag = c.usernameFlag → (c.usernameFlag = false → c0.username = c.username) →
+        unpackUserPart c0 (up ++ rest) = .ok ({ c0 with username := c.username }, rest) := by
+  unfold WFOptStr at hu
+  by_cases hf : c.usernameFlag = true
+  · rw [if_pos hf] at hu
+    obtain ⟨u, hu1, hul, huu⟩ := hu
+    refine ⟨writeBin u, by simp [packUserPart, hf, hu1, encodeUTF8String_eq hul], ?_⟩
+    intro c0 h1 _
+    rw [hf] at h1
+    simp only [unpackUserPart, h1, if_true, readStr_writeBin u hul (huu rfl)]
+    rw [hu1]
+  · have hf' : c.usernameFlag = false := by simpa using hf
+    refine ⟨[], by simp [packUserPart, hf'], ?_⟩
+    intro c0 h1 h2
+    rw [hf'] at h1
+    simp only [unpackUserPart, h1, Bool.false_eq_true, if_false, List.nil_append]
+    rw [← h2 hf']
+    cases c0
+    simp only at h1
+    subst h1
+    rfl
+
+theorem passPart_roundtrip (c : Connect) (hp : WFOptStr c.passwordFlag c.password false) :
+    ∃ pp, packPassPart c = .ok pp ∧
+      ∀ c0 : Connect, c0.passwordFlag = c.passwordFlag → (c.passwordFlag = false → c0.password = c.password) →
+        unpackPassPart c0 pp = .ok { c0 with password := c.password } := by
+  unfold WFOptStr at hp
+  by_cases hf : c.passwordFlag = true
+  · rw [if_pos hf] at hp
+    obtain ⟨u, hu1, hul, _⟩ := hp
+    refine ⟨writeBin u, by simp [packPassPart, hf, hu1, encodeUTF8String_eq hul], ?_⟩
+    intro c0 h1 _
+    rw [hf] at h1
+    have := readBin_writeBin u hul []
+    simp only [List.append_nil] at this
+    simp only [unpackPassPart, h1, if_true, this]
+    rw [hu1]
+  · have hf' : c.passwordFlag = false := by simpa using hf
+    refine ⟨[], by simp [packPassPart, hf'], ?_⟩
+    intro c0 h1 h2
+    rw [hf'] at h1
+    simp only [unpackPassPart, h1, Bool.false_eq_true, if_false]
+    rw [← h2 hf']
+    cases c0
+    simp only at h1
+    subst h1
+    rfl
+
+theorem WFOptStr_none {flag : Bool} {o : Option Bytes} {u : Bool} (h : WFOptStr flag o u) (hf : flag = false) :
+    o = none := by
+  unfold WFOptStr at h
+  rw [if_neg (by simp [hf])] at h
+  exact h
+
+theorem connect_encode_decode (c : Connect) (h : WFConnect c) :
+    ∃ b, connectBody c = .ok b ∧ b.length < 268435456 ∧ unpackConnect b = .ok c := by
+  obtain ⟨hver, hname, hq, hwf0, hwt, hwm, hka, hcl, hcu, hcid, hun, hpw, hprops, b, hb, hbl⟩ := h
+  refine ⟨b, hb, hbl, ?_⟩
+  obtain ⟨hlev, hnl⟩ := protoNameOf_some hname
+  -- the three optional parts
+  have hwp : if c.version = v5 then (if c.willFlag then ∃ wl, c.wprops = some wl ∧ WFProps none wl else True) else True := by
+    rw [hver]
+    by_cases h5 : c.level = v5
+    · rw [if_pos h5] at hprops ⊢
+      by_cases hw : c.willFlag = true
+      · rw [if_pos hw] at hprops ⊢; exact hprops.2
+      · rw [if_neg hw]; trivial
+    · rw [if_neg h5]; trivial
+  obtain ⟨pp, hpp, hppr⟩ := passPart_roundtrip c hpw
+  obtain ⟨up, hup, hupr⟩ := userPart_roundtrip c pp hun
+  obtain ⟨wp, hwpk, hwpr⟩ := willPart_roundtrip c (up ++ pp) hwt hwm hwp
+  simp only [connectBody, encodeUTF8String_eq hcl, hwpk, hup, hpp] at hb
+  cases hb
+  obtain ⟨f0, f1, f2, f3, f5, f6, f7⟩ := flags_roundtrip c.usernameFlag c.passwordFlag c.willRetain c.willFlag
+    c.cleanStart c.willQos hq
+  have hfl : connectFlags c = b2n c.usernameFlag 128 + b2n c.passwordFlag 64 + b2n c.willRetain 32 + b2n c.willFlag 4
+      + (if c.willQos = 1 then 8 else if c.willQos = 2 then 16 else 0) + b2n c.cleanStart 2 := rfl
+  -- run the decoder over the head
+  simp only [connectHead, List.append_assoc, List.cons_append, List.nil_append, unpackConnect,
+    readBin_writeBin c.protoName hnl, hname]
+  have hne : (c.protoName != c.protoName) = false := by simp
+  simp only [hne, Bool.false_eq_true, if_false, hfl, f0, f1, f2, f3, f5, f6, f7, bne_self_eq_false]
+  have hq2 : ¬ (c.willQos > 2) := by omega
+  have hwq : (!c.willFlag && c.willQos != 0) = false := by
+    by_cases hw : c.willFlag = true
+    · simp [hw]
+    · have hw' : c.willFlag = false := by simpa using hw
+      simp [hw', (hwf0 hw').1]
+  have hwr : (!c.willFlag && c.willRetain) = false := by
+    by_cases hw : c.willFlag = true
+    · simp [hw]
+    · have hw' : c.willFlag = false := by simpa using hw
+      simp [hw', (hwf0 hw').2]
+  simp only [hwq, hwr, hq2, Bool.false_eq_true, if_false, readU16_writeU16 c.keepAlive hka]
+  -- payload, common to both versions
+  have hpay : ∀ (ps wps : Option Props), ps = c.props → (c.willFlag = false → wps = c.wprops) →
+      (c.version ≠ v5 → wps = c.wprops) →
+      unpackConnectPayload
+        { version := c.level, level := c.level, protoName := c.protoName, usernameFlag := c.usernameFlag,
+          passwordFlag := c.passwordFlag, willRetain := c.willRetain, willQos := c.willQos, willFlag := c.willFlag,
+          cleanStart := c.cleanStart, keepAlive := c.keepAlive, clientID := [], willTopic := none, willMsg := none,
+          username := none, password := none, props := ps, wprops := wps }
+        (writeBin c.clientID ++ (wp ++ (up ++ pp))) = .ok c := by
+    intro ps wps hps hwps1 hwps2
+    simp only [unpackConnectPayload, readStr_writeBin c.clientID hcl hcu]
+    have hcidc : ((c.level = v311 || c.level = v31) && c.clientID.isEmpty && !c.cleanStart) = false := by
+      by_cases hce : c.clientID = []
+      · by_cases h5 : c.level = v5
+        · simp [h5, v5, v311, v31]
+        · simp [hcid h5 hce]
+      · have : c.clientID.isEmpty = false := by cases hc : c.clientID <;> simp_all
+        simp [this]
+    simp only [hcidc, Bool.false_eq_true, if_false]
+    have key1 := hwpr
+      { version := c.level, level := c.level, protoName := c.protoName, usernameFlag := c.usernameFlag,
+        passwordFlag := c.passwordFlag, willRetain := c.willRetain, willQos := c.willQos, willFlag := c.willFlag,
+        cleanStart := c.cleanStart, keepAlive := c.keepAlive, clientID := c.clientID, willTopic := none,
+        willMsg := none, username := none, password := none, props := ps, wprops := wps }
+      rfl hver.symm
+      (fun hw => ⟨hwps1 hw, (WFOptStr_none hwt hw).symm, (WFOptStr_none hwm hw).symm⟩) hwps2
+    rw [key1]
+    simp only
+    have key2 := hupr
+      { version := c.level, level := c.level, protoName := c.protoName, usernameFlag := c.usernameFlag,
+        passwordFlag := c.passwordFlag, willRetain := c.willRetain, willQos := c.willQos, willFlag := c.willFlag,
+        cleanStart := c.cleanStart, keepAlive := c.keepAlive, clientID := c.clientID, willTopic := c.willTopic,
+        willMsg := c.willMsg, username := none, password := none, props := ps, wprops := c.wprops }
+      rfl (fun hf => (WFOptStr_none hun hf).symm)
+    rw [key2]
+    simp only
+    have key3 := hppr
+      { version := c.level, level := c.level, protoName := c.protoName, usernameFlag := c.usernameFlag,
+        passwordFlag := c.passwordFlag, willRetain := c.willRetain, willQos := c.willQos, willFlag := c.willFlag,
+        cleanStart := c.cleanStart, keepAlive := c.keepAlive, clientID := c.clientID, willTopic := c.willTopic,
+        willMsg := c.willMsg, username := c.username, password := none, props := ps, wprops := c.wprops }
+      rfl (fun hf => (WFOptStr_none hpw hf).symm)
+    rw [key3]
+    cases c
+    simp only at hver hps ⊢
+    subst hver; subst hps
+    rfl
+  by_cases h5 : c.level = v5
+  · rw [if_pos h5] at hprops
+    obtain ⟨⟨l, hl, hwl⟩, hwprops⟩ := hprops
+    have hv5 : c.version = v5 := by rw [hver]; exact h5
+    have hupp := unpackProps_packProps (some tCONNECT) l hwl (writeBin c.clientID ++ (wp ++ (up ++ pp)))
+    simp only [hv5, if_true, hl, h5, hupp]
+    rw [← h5]
+    apply hpay
+    · exact hl.symm
+    · intro hw
+      rw [if_neg (by simp [hw])] at hwprops
+      exact hwprops.symm
+    · intro hn; exact (hn hv5).elim
+  · rw [if_neg h5] at hprops
+    have hv5 : ¬ c.version = v5 := by rw [hver]; exact h5
+    simp only [hv5, if_false, h5, List.nil_append]
+    apply hpay
+    · exact hprops.1.symm
+    · intro _; exact hprops.2.symm
+    · intro _; exact hprops.2.symm
+
+/-! #### accepted CONNECT ⇒ well-formed -/
+
+theorem writeBin_length (s : Bytes) : (writeBin s).length = 2 + s.length := by
+  simp [writeBin, writeU16]; omega
+
+theorem willPart_inv (c0 c1 : Connect) (w w' : Bytes) (hb : AllBytes w) (h : unpackWillPart c0 w = .ok (c1, w'))
+    (h0 : c0.willTopic = none ∧ c0.willMsg = none) (h05 : c0.version = v5 → c0.wprops = some []) :
+    (∃ wps wt wm, c1 = { c0 with wprops := wps, willTopic := wt, willMsg := wm }
+      ∧ WFOptStr c0.willFlag wt true ∧ WFOptStr c0.willFlag wm false
+      ∧ (if c0.version = v5 then
+           (if c0.willFlag then ∃ wl, wps = some wl ∧ WFProps none wl else wps = some [])
+         else wps = c0.wprops))
+    ∧ AllBytes w' ∧ ∃ wp, packWillPart c1 = .ok wp ∧ wp.length + w'.length ≤ w.length := by
+  simp only [unpackWillPart] at h
+  by_cases hwf : c0.willFlag = true
+  · rw [if_pos hwf] at h
+    -- will properties
+    have hwps : ∃ wps w2, unpackWillPropsStep c0 w = .ok (wps, w2) ∧ AllBytes w2
+        ∧ (if c0.version = v5 then ∃ wl, wps = some wl ∧ WFProps none wl
+              ∧ ((packProps (some wl)).length + w2.length ≤ w.length ∨ (w = [] ∧ w2 = []))
+           else wps = c0.wprops ∧ w2 = w) := by
+      by_cases h5 : c0.version = v5
+      · cases hu : unpackProps none w with
+        | error e => simp [unpackWillPropsStep, h5, hu] at h
+        | ok r =>
+          obtain ⟨ps, r2⟩ := r
+          obtain ⟨hwfp, hb2⟩ := unpackProps_wf none w ps r2 hb hu
+          have hsz := unpackProps_size none w ps r2 hb hu
+          refine ⟨some ps, r2, by simp [unpackWillPropsStep, h5, hu], hb2, ?_⟩
+          rw [if_pos h5]
+          refine ⟨ps, rfl, hwfp, ?_⟩
+          rcases hsz with hsz | ⟨h1, _, h3⟩
+          · exact Or.inl hsz
+          · exact Or.inr ⟨h1, h3⟩
+      · refine ⟨c0.wprops, w, by simp [unpackWillPropsStep, h5], hb, ?_⟩
+        rw [if_neg h5]
+        exact ⟨rfl, rfl⟩
+    obtain ⟨wps, w2, hwpe, hb2, hwpc⟩ := hwps
+    rw [hwpe] at h
+    simp only at h
+    cases hr : readStr true w2 with
+    | error e => rw [hr] at h; cases h
+    | ok r =>
+      obtain ⟨wt, w3⟩ := r
+      rw [hr] at h
+      simp only at h
+      obtain ⟨he3, hwtl, hwtu, hb3⟩ := readStr_inv hb2 hr
+      cases hr4 : readBin w3 with
+      | error e => rw [hr4] at h; cases h
+      | ok r4 =>
+        obtain ⟨wm, w4⟩ := r4
+        rw [hr4] at h
+        simp only [Except.ok.injEq, Prod.mk.injEq] at h
+        obtain ⟨hc1, hw4⟩ := h
+        subst hw4
+        obtain ⟨he4, hwml⟩ := readBin_inv w3 wm w4 hb3 hr4
+        have hb4 : AllBytes w4 := by rw [he4] at hb3; exact (allBytes_append.mp hb3).2
+        have hl3 : w2.length = 2 + wt.length + w3.length := by rw [he3]; simp [writeBin_length]
+        have hl4 : w3.length = 2 + wm.length + w4.length := by rw [he4]; simp [writeBin_length]
+        refine ⟨⟨wps, some wt, some wm, hc1.symm, ?_, ?_, ?_⟩, hb4, ?_⟩
+        · unfold WFOptStr; rw [if_pos hwf]; exact ⟨wt, rfl, hwtl, fun _ => hwtu⟩
+        · unfold WFOptStr; rw [if_pos hwf]; exact ⟨wm, rfl, hwml, fun hh => by cases hh⟩
+        · by_cases h5 : c0.version = v5
+          · rw [if_pos h5] at hwpc ⊢
+            rw [if_pos hwf]
+            obtain ⟨wl, h1, h2, _⟩ := hwpc
+            exact ⟨wl, h1, h2⟩
+          · rw [if_neg h5] at hwpc ⊢
+            exact hwpc.1
+        · subst hc1
+          simp only [packWillPart, hwf, if_true, Option.getD_some, encodeUTF8String_eq hwtl,
+            encodeUTF8String_eq hwml]
+          refine ⟨_, rfl, ?_⟩
+          simp only [List.length_append, writeBin_length]
+          by_cases h5 : c0.version = v5
+          · rw [if_pos h5] at hwpc ⊢
+            obtain ⟨wl, h1, h2, hsz⟩ := hwpc
+            subst h1
+            rw [packWillProps_eq wl h2.2.2.1]
+            rcases hsz with hsz | ⟨_, hw2⟩
+            · omega
+            · subst hw2; simp at hl3; omega
+          · rw [if_neg h5] at hwpc ⊢
+            obtain ⟨_, hw2⟩ := hwpc
+            subst hw2
+            simp only [List.length_nil]
+            omega
+  · have hwf' : c0.willFlag = false := by simpa using hwf
+    rw [if_neg hwf] at h
+    simp only [Except.ok.injEq, Prod.mk.injEq] at h
+    obtain ⟨hc1, hw⟩ := h
+    subst hw; subst hc1
+    refine ⟨⟨c0.wprops, none, none, ?_, ?_, ?_, ?_⟩, hb, [], by simp [packWillPart, hwf'], by simp⟩
+    · cases c0
+      simp only at h0
+      obtain ⟨h1, h2⟩ := h0
+      subst h1; subst h2
+      rfl
+    · unfold WFOptStr; rw [if_neg hwf]
+    · unfold WFOptStr; rw [if_neg hwf]
+    · by_cases h5 : c0.version = v5
+      · rw [if_pos h5, if_neg hwf]; exact h05 h5
+      · rw [if_neg h5]
+
+theorem userPart_inv (c0 c1 : Connect) (w w' : Bytes) (hb : AllBytes w) (h : unpackUserPart c0 w = .ok (c1, w'))
+    (h0 : c0.username = none) :
+    (∃ u, c1 = { c0 with username := u } ∧ WFOptStr c0.usernameFlag u true)
+    ∧ AllBytes w' ∧ ∃ up, packUserPart c1 = .ok up ∧ up.length + w'.length ≤ w.length := by
+  simp only [unpackUserPart] at h
+  by_cases hf : c0.usernameFlag = true
+  · rw [if_pos hf] at h
+    cases hr : readStr true w with
+    | error e => rw [hr] at h; cases h
+    | ok r =>
+      obtain ⟨u, w1⟩ := r
+      rw [hr] at h
+      simp only [Except.ok.injEq, Prod.mk.injEq] at h
+      obtain ⟨hc1, hw⟩ := h
+      subst hw; subst hc1
+      obtain ⟨he, hul, huu, hb1⟩ := readStr_inv hb hr
+      refine ⟨⟨some u, rfl, ?_⟩, hb1, writeBin u, ?_, ?_⟩
+      · unfold WFOptStr; rw [if_pos hf]; exact ⟨u, rfl, hul, fun _ => huu⟩
+      · simp [packUserPart, hf, encodeUTF8String_eq hul]
+      · rw [he]; simp
+  · have hf' : c0.usernameFlag = false := by simpa using hf
+    rw [if_neg hf] at h
+    simp only [Except.ok.injEq, Prod.mk.injEq] at h
+    obtain ⟨hc1, hw⟩ := h
+    subst hw; subst hc1
+    refine ⟨⟨none, ?_, ?_⟩, hb, [], by simp [packUserPart, hf'], by simp⟩
+    · cases c0; simp only at h0; subst h0; rfl
+    · unfold WFOptStr; rw [if_neg hf]
+
+theorem passPart_inv (c0 c1 : Connect) (w : Bytes) (hb : AllBytes w) (h : unpackPassPart c0 w = .ok c1)
+    (h0 : c0.password = none) :
+    (∃ p, c1 = { c0 with password := p } ∧ WFOptStr c0.passwordFlag p false)
+    ∧ ∃ pp, packPassPart c1 = .ok pp ∧ pp.length ≤ w.length := by
+  simp only [unpackPassPart] at h
+  by_cases hf : c0.passwordFlag = true
+  · rw [if_pos hf] at h
+    cases hr : readBin w with
+    | error e => rw [hr] at h; cases h
+    | ok r =>
+      obtain ⟨u, w1⟩ := r
+      rw [hr] at h
+      simp only [Except.ok.injEq] at h
+      subst h
+      obtain ⟨he, hul⟩ := readBin_inv w u w1 hb hr
+      refine ⟨⟨some u, rfl, ?_⟩, writeBin u, ?_, ?_⟩
+      · unfold WFOptStr; rw [if_pos hf]; exact ⟨u, rfl, hul, fun hh => by cases hh⟩
+      · simp [packPassPart, hf, encodeUTF8String_eq hul]
+      · rw [he]; simp
+  · have hf' : c0.passwordFlag = false := by simpa using hf
+    rw [if_neg hf] at h
+    simp only [Except.ok.injEq] at h
+    subst h
+    refine ⟨⟨none, ?_, ?_⟩, [], by simp [packPassPart, hf'], by simp⟩
+    · cases c0; simp only at h0; subst h0; rfl
+    · unfold WFOptStr; rw [if_neg hf]
+
+theorem payload_inv (c0 c : Connect) (w : Bytes) (hb : AllBytes w) (h : unpackConnectPayload c0 w = .ok c)
+    (h0 : c0.willTopic = none ∧ c0.willMsg = none ∧ c0.username = none ∧ c0.password = none)
+    (h05 : c0.version = v5 → c0.wprops = some []) :
+    ∃ cid wps wt wm u p,
+      c = { c0 with clientID := cid, wprops := wps, willTopic := wt, willMsg := wm, username := u, password := p }
+      ∧ cid.length ≤ 65535 ∧ validUTF8 cid = true
+      ∧ ((c0.version = v311 ∨ c0.version = v31) → cid = [] → c0.cleanStart = true)
+      ∧ WFOptStr c0.willFlag wt true ∧ WFOptStr c0.willFlag wm false
+      ∧ (if c0.version = v5 then
+           (if c0.willFlag then ∃ wl, wps = some wl ∧ WFProps none wl else wps = some [])
+         else wps = c0.wprops)
+      ∧ WFOptStr c0.usernameFlag u true ∧ WFOptStr c0.passwordFlag p false
+      ∧ ∃ wp up pp, packWillPart c = .ok wp ∧ packUserPart c = .ok up ∧ packPassPart c = .ok pp
+          ∧ 2 + cid.length + wp.length + up.length + pp.length ≤ w.length := by
+  simp only [unpackConnectPayload] at h
+  cases hr : readStr true w with
+  | error e => rw [hr] at h; cases h
+  | ok r =>
+    obtain ⟨cid, w1⟩ := r
+    rw [hr] at h
+    simp only at h
+    obtain ⟨he, hcl, hcu, hb1⟩ := readStr_inv hb hr
+    have hlen1 : w.length = 2 + cid.length + w1.length := by rw [he]; simp [writeBin_length]
+    by_cases hcheck : ((c0.version = v311 || c0.version = v31) && cid.isEmpty && !c0.cleanStart) = true
+    · rw [if_pos hcheck] at h; cases h
+    · rw [if_neg hcheck] at h
+      cases hw : unpackWillPart { c0 with clientID := cid } w1 with
+      | error e => rw [hw] at h; cases h
+      | ok rw1 =>
+        obtain ⟨cA, w5⟩ := rw1
+        rw [hw] at h
+        simp only at h
+        obtain ⟨⟨wps, wt, wm, hcA, hwt, hwm, hwpc⟩, hb5, wp, hwp, hwpl⟩ :=
+          willPart_inv _ cA w1 w5 hb1 hw ⟨h0.1, h0.2.1⟩ h05
+        cases hu : unpackUserPart cA w5 with
+        | error e => rw [hu] at h; cases h
+        | ok ru =>
+          obtain ⟨cB, w6⟩ := ru
+          rw [hu] at h
+          simp only at h
+          have hcAu : cA.username = none := by rw [hcA]; exact h0.2.2.1
+          obtain ⟨⟨u, hcB, hun⟩, hb6, up, hup, hupl⟩ := userPart_inv cA cB w5 w6 hb5 hu hcAu
+          have hcBp : cB.password = none := by rw [hcB, hcA]; exact h0.2.2.2
+          obtain ⟨⟨p, hc, hpw⟩, pp, hpp, hppl⟩ := passPart_inv cB c w6 hb6 h hcBp
+          refine ⟨cid, wps, wt, wm, u, p, ?_, hcl, hcu, ?_, ?_, ?_, ?_, ?_, ?_, wp, up, pp, ?_, ?_, hpp, ?_⟩
+          · rw [hc, hcB, hcA]
+          · intro hv hce
+            simp only [Bool.and_eq_true, Bool.or_eq_true, decide_eq_true_eq, Bool.not_eq_true', not_and,
+              Bool.not_eq_false] at hcheck
+            exact hcheck ⟨hv, (isEmpty_iff_nil _).mpr hce⟩
+          · exact hwt
+          · exact hwm
+          · exact hwpc
+          · rw [hcA] at hun; exact hun
+          · rw [hcB, hcA] at hpw; exact hpw
+          · rw [hc, hcB]
+            simpa [packWillPart] using hwp
+          · rw [hc]
+            simpa [packUserPart] using hup
+          · omega
+
+theorem connect_decode_wf (w : Bytes) (c : Connect) (hb : AllBytes w) (hl : w.length ≤ 268435455)
+    (h : unpackConnect w = .ok c) : WFConnect c := by
+  simp only [unpackConnect] at h
+  cases hr : readBin w with
+  | error e => rw [hr] at h; cases h
+  | ok r =>
+    obtain ⟨name, w1⟩ := r
+    rw [hr] at h
+    simp only at h
+    obtain ⟨he, hnl⟩ := readBin_inv w name w1 hb hr
+    have hb1 : AllBytes w1 := by rw [he] at hb; exact (allBytes_append.mp hb).2
+    have hlen1 : w.length = 2 + name.length + w1.length := by rw [he]; simp [writeBin_length]
+    cases w1 with
+    | nil => cases h
+    | cons level w2 =>
+      simp only at h
+      have hb2 := (allBytes_cons.mp hb1).2
+      cases hpn : protoNameOf level with
+      | none => rw [hpn] at h; cases h
+      | some n =>
+        rw [hpn] at h
+        simp only at h
+        by_cases hne : (name != n) = true
+        · rw [if_pos hne] at h; cases h
+        · rw [if_neg hne] at h
+          have hnn : name = n := by simpa using hne
+          subst hnn
+          cases w2 with
+          | nil => cases h
+          | cons flags w3 =>
+            simp only at h
+            have hb3 := (allBytes_cons.mp hb2).2
+            by_cases hres : (flags % 2 != 0) = true
+            · rw [if_pos hres] at h; cases h
+            · rw [if_neg hres] at h
+              by_cases hwq : (!bit flags 2 && flags / 8 % 4 != 0) = true
+              · rw [if_pos hwq] at h; cases h
+              · rw [if_neg hwq] at h
+                by_cases hq3 : flags / 8 % 4 > 2
+                · rw [if_pos hq3] at h; cases h
+                · rw [if_neg hq3] at h
+                  by_cases hwr : (!bit flags 2 && bit flags 5) = true
+                  · rw [if_pos hwr] at h; cases h
+                  · rw [if_neg hwr] at h
+                    cases hrk : readU16 w3 with
+                    | error e => rw [hrk] at h; cases h
+                    | ok rk =>
+                      obtain ⟨ka, w4⟩ := rk
+                      rw [hrk] at h
+                      simp only at h
+                      obtain ⟨hek, hka⟩ := readU16_inv w3 ka w4 hb3 hrk
+                      have hb4 : AllBytes w4 := by rw [hek] at hb3; exact (allBytes_append.mp hb3).2
+                      have hlen4 := readU16_len hrk
+                      have hwill0 : bit flags 2 = false → flags / 8 % 4 = 0 ∧ bit flags 5 = false := by
+                        intro hf
+                        simp only [hf, Bool.not_false, Bool.true_and, bne_iff_ne, ne_eq, Decidable.not_not,
+                          Bool.not_eq_true] at hwq hwr
+                        exact ⟨hwq, hwr⟩
+                      by_cases h5 : level = v5
+                      · rw [if_pos h5] at h
+                        cases hu : unpackProps (some tCONNECT) w4 with
+                        | error e => rw [hu] at h; cases h
+                        | ok ru =>
+                          obtain ⟨ps, w5⟩ := ru
+                          rw [hu] at h
+                          simp only at h
+                          obtain ⟨hwfp, hb5⟩ := unpackProps_wf (some tCONNECT) w4 ps w5 hb4 hu
+                          have hsz := unpackProps_size (some tCONNECT) w4 ps w5 hb4 hu
+                          obtain ⟨cid, wps, wt, wm, u, p, hc, hcl, hcu, hcid, hwt, hwm, hwpc, hun, hpw, wp, up, pp,
+                            hwp, hup, hpp, hsum⟩ := payload_inv _ c w5 hb5 h ⟨rfl, rfl, rfl, rfl⟩ (fun _ => rfl)
+                          simp only at hcid hwt hwm hwpc hun hpw
+                          rw [if_pos h5] at hwpc
+                          subst hc
+                          refine ⟨rfl, hpn, by simp only; omega, ?_, hwt, hwm, hka, hcl, hcu, ?_, hun, hpw, ?_, ?_⟩
+                          · intro hf; exact hwill0 hf
+                          · intro hn; exact (hn h5).elim
+                          · simp only
+                            rw [if_pos h5]
+                            exact ⟨⟨ps, rfl, hwfp⟩, hwpc⟩
+                          · simp only [connectBody, encodeUTF8String_eq hcl, hwp, hup, hpp]
+                            refine ⟨_, rfl, ?_⟩
+                            simp only [connectHead, h5, if_true, List.length_append, writeBin_length, List.length_cons,
+                              List.length_nil, writeU16]
+                            simp only [List.length_cons] at hlen1 hlen4
+                            rcases hsz with hsz | ⟨_, _, hw5⟩
+                            · omega
+                            · subst hw5; simp at hsum
+                      · rw [if_neg h5] at h
+                        obtain ⟨cid, wps, wt, wm, u, p, hc, hcl, hcu, hcid, hwt, hwm, hwpc, hun, hpw, wp, up, pp,
+                          hwp, hup, hpp, hsum⟩ := payload_inv _ c w4 hb4 h ⟨rfl, rfl, rfl, rfl⟩
+                            (fun hv => (h5 hv).elim)
+                        simp only at hcid hwt hwm hwpc hun hpw
+                        rw [if_neg h5] at hwpc
+                        subst hc
+                        obtain ⟨hlev, _⟩ := protoNameOf_some hpn
+                        refine ⟨rfl, hpn, by simp only; omega, ?_, hwt, hwm, hka, hcl, hcu, ?_, hun, hpw, ?_, ?_⟩
+                        · intro hf; exact hwill0 hf
+                        · intro _ hce
+                          apply hcid _ hce
+                          rcases hlev with h3 | h4 | h55
+                          · right; exact h3
+                          · left; exact h4
+                          · exact (h5 h55).elim
+                        · simp only
+                          rw [if_neg h5]
+                          exact ⟨trivial, hwpc⟩
+                        · simp only [connectBody, encodeUTF8String_eq hcl, hwp, hup, hpp]
+                          refine ⟨_, rfl, ?_⟩
+                          simp only [connectHead, h5, if_false, List.length_append, writeBin_length, List.length_cons,
+                            List.length_nil, writeU16]
+                          simp only [List.length_cons] at hlen1 hlen4
+                          omega
 
 end GmqttVerif.Codec
